@@ -179,7 +179,7 @@ pub struct Obs18 {
 pub fn run_config_once(cfg: &Config18, prefix: &[usize]) -> (Execution<ThreadEnd>, Obs18) {
     let mut make = maker(cfg.clone());
     let (bodies, mut at_cut) = make();
-    let ex = sched::run_once(bodies, prefix, &mut *at_cut, std::time::Duration::from_secs(10));
+    let ex = sched::run_once(bodies, prefix, &mut *at_cut, sched::WATCHDOG);
     let obs = judge(&ex);
     (ex, obs)
 }
@@ -682,7 +682,7 @@ pub fn replay_now(case_v: &Value) -> Vec<String> {
         rbx_types::verif::INDEX.set_quiet(case.start_index);
         let bodies = now_bodies(&case.calls);
         let mut cut = || None;
-        let ex = sched::run_once(bodies, &case.schedule, &mut cut, std::time::Duration::from_secs(10));
+        let ex = sched::run_once(bodies, &case.schedule, &mut cut, sched::WATCHDOG);
         runs.push(judge_now(&ex));
     }
     rbx_types::verif::pin_clock(None);
